@@ -11,33 +11,41 @@ import cache_common as cc
 META = dict(
     level_claimed=dict(
         category="proof",
-        text="Lean 4 theorems about the executable mirror of fscache.Cache (all remote trees, op lists of any length, all "
-             "spellings, child views): PROVED at full strength: remote_untouched (no sequence of cache operations changes the "
-             "remote: clause (i) 'nothing before Commit'), commit_fail_reported (an injected remote failure makes Commit "
-             "report an error), commit_clears_nothing. The clause 'after Commit the remote equals direct application' is "
-             "DISPROVED for the code as it is (commit_equiv_false: one machine-checked witness per finding class "
-             "KF-C06-1..12, recorded in known_findings.d/C06.json and replayed on every run) and PROVED as "
-             "commit_equiv_partial / commit_retry_partial / commit_order_irrelevant_partial for the class of histories "
-             "made of WriteFile / Writer / MkdirAll through the cache or child views in which every operation also succeeds "
-             "when applied directly (see level_note for the exact hypotheses). The model is tied to /repo on every run by a "
-             "line-by-line differential (real fscache over real memfs behind a failing-remote decorator vs the compiled "
-             "model) over random histories, restricted-class histories and a failure-position sweep; the decidable defect "
+        text="Lean 4 theorems about the executable mirror of fscache.Cache (Goat/Model/Cache.lean; all remote trees, "
+             "histories of any length, all path spellings, child views of any depth). PROVED AT FULL STRENGTH: "
+             "remote_untouched (clause 1: no sequence of cache operations, succeeding or failing, changes the remote), "
+             "commit_order_irrelevant (in every reachable state the Go map iteration order changes neither the verdict "
+             "of Commit nor the tree it leaves when it succeeds), commit_fail_reported (a remote call that fails during "
+             "Commit makes Commit report an error: every state, order and position), commit_changes_only_remote. "
+             "The clause 'after a successful Commit the remote equals direct application' is DISPROVED for the code as it "
+             "is (commit_equiv_false; findings_witnessed evaluates one witness per finding class KF-C06-1..12, the same "
+             "histories are replayed on the Go code on every run) and PROVED as commit_equiv_partial / "
+             "commit_retry_partial / second_commit_unchanged_partial / commit_order_irrelevant_partial on the class: "
+             "histories of WriteFile / Writer / MkdirAll / CopyFile through the cache or child views in which every "
+             "operation also succeeds when applied directly and no WriteFile path ends in '/', '.' or '..' (the negation "
+             "of the defect predicates). Direct application is the point-wise FS specification (direct_is_spec, via the "
+             "C01 refinement). The model is tied to /repo on every run by a line-by-line differential (real fscache over "
+             "real memfs behind a failing-remote decorator vs the compiled model: remote walked after every operation, "
+             "Commit with failure injected at every position, retries) and a reference oracle; decidable defect "
              "predicates (Goat.Cache.defectsAt) classify every history: outside all classes implementation = model = "
              "direct application, inside a class implementation = model (the documented wrong behaviour is pinned).",
         design_ref="DESIGN.md 3 C06"),
-    level_note="KNOWN FINDINGS: the 'everything after Commit' clause fails on the current code in 12 classes (unordered "
-               "journals, no tombstones; repair = redesign), listed with witnesses; the check exits 0 printing them and "
-               "still reports any change of the remote outside Commit, any deviation from the model, and any deviation "
-               "from direct application outside the listed classes. Trusted: Lean kernel (axioms propext/Classical.choice/"
-               "Quot.sound only); the hand-written model's correspondence to /repo (differential; reach printed in the "
-               "histogram); the defect predicates' completeness is empirical (every explored history on which the model "
-               "deviates from direct application is in a listed class), their soundness for the `_partial` class is a "
-               "theorem only as far as Props/C06.lean states; memfs as remote and as buffer (C01); Go map iteration = some "
-               "permutation; a failing remote call has no effect; fshelper.Copy's goroutine walk modelled sequentially "
-               "(its outcome after an error, and copies with overlapping arguments, are kept out of the campaigns).",
-    technique="Lean 4 proof (invariant over histories; refinement to the point-wise FS spec through the C01 theorems; "
-              "disproof by evaluated witnesses) + differential correspondence with fault injection + reference oracle + "
-              "decidable defect-class classification",
+    level_note="KNOWN FINDINGS: 'everything after Commit' fails on the current code in 12 classes (unordered journals "
+               "without tombstones, journalling before success, raw WriteFile keys, buffer-or-remote source resolution; "
+               "repair = redesign), listed with witnesses in known_findings.d/C06.json; the check exits 0 printing them "
+               "and still reports (a) any change of, or mutating call on, the remote outside Commit, (b) any deviation "
+               "from direct application outside the listed classes, (c) any deviation from the model anywhere. Trusted: "
+               "Lean kernel (axioms propext/Classical.choice/Quot.sound only); the hand-written model's correspondence "
+               "to /repo (differential; reach printed in the histogram); completeness of the defect predicates is "
+               "EMPIRICAL (every explored history on which the model deviates from direct application is in a listed "
+               "class; that the partial class contains no defect event is exercised by the genclean campaign); memfs as "
+               "remote and buffer (C01); Go map iteration = some permutation; a failing remote call has no effect; "
+               "fshelper.Copy's goroutine walk modelled sequentially (its outcome after an error and copies with "
+               "overlapping arguments are kept out of the bulk campaigns). A failed Commit leaves an order-dependent "
+               "remote: between a failed Commit and the next successful one remote-dependent answers are not compared.",
+    technique="Lean 4 proof (overlay + journal invariants over histories through the C01 refinement; Commit loops as "
+              "folds of pairwise commuting Kleisli steps; disproof by evaluated witnesses) + differential correspondence "
+              "with fault injection + reference oracle + decidable defect-class classification",
 )
 
 PROP = "C06"
@@ -49,8 +57,8 @@ def run(ctx):
         sides = cc.Sides(ctx)
         cc.replay_findings(ctx, sides, PROP)
         concrete = cc.corpus(ctx, sides, PROP)
-        n = ctx.pick(1600, 110000)
-        plan = [("gen", n), ("genclean", ctx.pick(500, 30000)), ("genryw", ctx.pick(200, 8000))]
+        n = ctx.pick(1600, 40000)
+        plan = [("gen", n), ("genclean", ctx.pick(500, 12000)), ("genryw", ctx.pick(200, 4000))]
         ctx.rule = ("corpus/C06 (witnesses of the findings) first; then per shard (16, seeds from VERIF_SEED) random histories: "
                     "0..12 nodes written on a memfs remote, `new 1 cache 0`, 3..14 mutating calls {write writer mkdir remove "
                     "removeall copy copyfile copydir view} through the cache or child views (names {a,b,c}, depth<=3, odd "
@@ -64,7 +72,7 @@ def run(ctx):
         c2, results = cc.campaign(ctx, sides, PROP, plan)
         concrete |= c2
         cc.account(ctx, results)
-        concrete |= cc.oracle(ctx, sides, PROP, [("oracle", ctx.pick(1200, 50000)), ("oracleclean", ctx.pick(400, 15000))])
+        concrete |= cc.oracle(ctx, sides, PROP, [("oracle", ctx.pick(1200, 16000)), ("oracleclean", ctx.pick(400, 6000))])
     except RuntimeError as e:
         ctx.fatal(str(e))
     ctx.assumptions += [
